@@ -260,12 +260,10 @@ func (s *Stream) handleForwardTSNForUnordered(newCumulativeTSN uint32) {
 		s.lock.Lock()
 		defer s.lock.Unlock()
 
-		if !s.unordered {
-			return // ordered chunks are handled by handleForwardTSNOrdered method
-		}
-
-		// Remove all chunks older than or equal to the new TSN from
-		// the reassemblyQueue.
+		// Remove all fragments of unordered messages older than or equal to the
+		// new TSN from the reassemblyQueue. Whether the peer sends unordered
+		// messages on this stream does not depend on s.unordered, which is the
+		// setting for messages sent by this side.
 		s.reassemblyQueue.forwardTSNForUnordered(newCumulativeTSN)
 		readable = s.reassemblyQueue.isReadable()
 	}()
